@@ -204,7 +204,7 @@ def simulate_behaviours(module, cfg, num, depth, seed, timeout=600):
         shutil.rmtree(tmp, ignore_errors=True)
 
 
-_RE_SIM_STATE = re.compile(r"\\\* <(\w+)[^>]*>\s*\nSTATE_(\d+) ==\s*\n(.*?)(?=\n\n|\Z)", re.S)
+_RE_SIM_STATE = re.compile(r"\\\* <(\w+)[^\n]*>\s*\nSTATE_(\d+) ==\s*\n(.*?)(?=\n\n|\Z)", re.S)
 
 
 def parse_sim_file(txt):
